@@ -1,6 +1,6 @@
 PROP = {
-    "modules": ["Discv5Model.Props.C09"],
-    "lemma_modules": ["Discv5Model.Proofs.QueryLemmas"],
+    "modules": ["Discv5Model.Props.C09", "Discv5Model.Props.C09Started"],
+    "lemma_modules": ["Discv5Model.Proofs.QueryLemmas", "Discv5Model.Proofs.QueryStarted"],
     "engines": [{"name": "query", "quick": 1000, "thorough": 50000}, {"name": "service", "quick": 80, "thorough": 4000}],
     "rule": "query engine (cases shared with C10): 6/7 of the cases drive one FindNodeQuery or PredicateQuery directly "
             "with explicit time (parallelism 1..8, num_results 1..24, occasionally 0; peer timeout 0..100): next at "
@@ -37,7 +37,8 @@ PROP = {
                   "every hash-map visiting order a poll past the query timeout hands out a request or removes a query, "
                   "and no query id is handed back twice or reachable afterwards. The model is tied to /repo by a "
                   "differential run on every check and by lookups through the real Service (the caller's future must "
-                  "resolve to a result when the lookup ends).",
+                  "resolve to a result when the lookup ends)."
+                  ' Also: the pool stamps a lookup at its first poll and nothing moves the stamp afterwards, so the cut-off comes query_timeout after the first poll whatever was answered in between (Props/C09Started.lean).',
     "level_note": "Trusted: Lean kernel, harness/driver. The tie model<->code is a sampled differential check, not a "
                   "proof. Liveness beyond the model (poll being called again) is a runtime assumption.",
 }
